@@ -157,7 +157,7 @@ def summaries():
     S.append((r'^HashMap::<u64, (confirm::)?Confirm>::retain::<', hm_retain))
     S.append((r'^HashMap::<u64, (confirm::)?Confirm>::remove', hm_remove))
     S.append((r'^HashMap::<u64, (confirm::)?Confirm>::insert', hm_insert))
-    S.append((r'^HashMap::<u64, (confirm::)?Confirm>::new$', hm_new))
+    S.append((r'^HashMap::<u64, (confirm::)?Confirm>::new$|^<HashMap<u64, (confirm::)?Confirm> as Default>::default$', hm_new))
     return S + common_summaries()
 
 
@@ -250,6 +250,8 @@ def body(ctx):
     f_next = prog.method('Iter', 'next', trait='Iterator')
     if 'Iter' not in ex.drop_impls:
         raise Unsupported('Drop impl for confirm::Iter not found')
+
+    constructors_agree(ctx, prog, ex, f_with)
 
     exp0 = z3.BitVec('expected0', 64)
 
@@ -488,6 +490,56 @@ def body(ctx):
         desc = {'expected0': e0, 'inputs(kind 0=ack 1=nack, tag, multiple)': cex_in, 'engine_outputs(kind, tag)': outs, 'what': what, 'info': info}
         test = make_replay(e0, cex_in, takes, role)
         ctx.report(role, f"ConfirmSmoother({e0}) fed {cex_in}: outputs differ from the reference ({what})", desc, test)
+
+
+def constructors_agree(ctx, prog, ex, f_with):
+    """every way of making a fresh smoother gives the same one: new(), Default::default() and with_expected_delivery_tag(1) (a fresh
+    channel's first tag is 1) - the histories below start from with_expected_delivery_tag"""
+    names = prog.types.fields('ConfirmSmoother')
+    made = {}
+    for label, getter in (('with_expected_delivery_tag(1)', lambda: (f_with, [Int(1, 64, False)])), ('new()', lambda: (prog.method('ConfirmSmoother', 'new'), [])),
+                          ('Default::default()', lambda: (prog.method('ConfirmSmoother', 'default', trait='Default'), []))):
+        try:
+            f, args = getter()
+        except Unsupported:
+            continue          # no such constructor in this tree
+        res = ex.run(State(), f, args)
+        if len(res) != 1 or isinstance(res[0][1], Panic):
+            made[label] = None
+        else:
+            made[label] = res[0]
+    ref = made.get('with_expected_delivery_tag(1)')
+    bad = []
+    for label, r in made.items():
+        ok = r is not None and ref is not None
+        c = z3.BoolVal(False)
+        if ok:
+            s_, v = r
+            exp = v.fields[names.index('expected')]
+            mp = v.fields[names.index('out_of_order')]
+            x = z3.BitVec('any.tag', 64)
+            c = z3.And(exp.bv == 1, z3.Not(z3.Select(mp.present, x)))
+        m = ctx.decide(f"c14.constructor[{label}]", r[0].pc if r else [], c, group='new(), Default::default() and with_expected_delivery_tag(1) all give an empty smoother expecting tag 1')
+        if m is not None:
+            bad.append(label)
+    if bad:
+        ctx.report('constructors-disagree', f"{bad} does not give an empty smoother that expects delivery tag 1", {'constructors': bad}, CONSTRUCTOR_TEST, uses='use super::*;', inject_into='src/confirm.rs', profiles=('dev',), panic_is_violation=True)
+
+
+CONSTRUCTOR_TEST = r"""
+#[test]
+fn verif_replay_c14_constructors() {
+    let mut bad: Vec<String> = Vec::new();
+    let inputs = vec![Confirm::Ack(ConfirmPayload { delivery_tag: 2, multiple: false }), Confirm::Ack(ConfirmPayload { delivery_tag: 1, multiple: false }), Confirm::Nack(ConfirmPayload { delivery_tag: 4, multiple: true })];
+    let run = |mut s: ConfirmSmoother| -> String { let mut out = Vec::new(); for c in inputs.iter() { for o in s.process(c.clone()) { out.push(format!("{:?}", o)); } } out.join(",") };
+    let want = run(ConfirmSmoother::with_expected_delivery_tag(1));
+    let a = run(ConfirmSmoother::new());
+    let b = run(ConfirmSmoother::default());
+    if a != want { bad.push(format!("new():{}", a)); }
+    if b != want { bad.push(format!("default():{}", b)); }
+    if bad.is_empty() { println!("VERIF-REPLAY-OK"); } else { println!("VERIF-REPLAY-VIOLATION constructors-disagree {}", bad.join(";").replace(' ', "")); }
+}
+"""
 
 
 def classify(what, e0, inputs):
